@@ -108,7 +108,7 @@ __CPROVER_ensures(VERIF_thrown == (self->Status < Computed || in >= self->StateS
 /* otherwise the stored block index of that state (stated at the ghost state) */
 __CPROVER_ensures((!VERIF_thrown && in == SBI->gidx) ==> __CPROVER_return_value.number == SBI->gval.number)
 //@end
-//@harness h_getBlockNumber_q enforce=SC_getBlockNumber_q props=C07,C17 min_obl=100 reach=3 timeout=120
+//@harness h_getBlockNumber_q enforce=SC_getBlockNumber_q props=C07,C17 min_obl=101 reach=3 timeout=120
 void h_getBlockNumber_q(void)
 {
   struct StatesClassification *p; unsigned long s;
@@ -148,7 +148,7 @@ __CPROVER_assigns(n, self->StatesContainer.gvec.scratch)
 __CPROVER_loop_invariant(n <= SCN->gvec.gpos && !VERIF_thrown && block.number == SBI->gval.number)
 __CPROVER_decreases(SCN->gvec.gpos - n)
 //@end
-//@harness h_getInnerState_f enforce=SC_getInnerState_f props=C07,C17 min_obl=430 reach=3 timeout=240
+//@harness h_getInnerState_f enforce=SC_getInnerState_f props=C07,C17 min_obl=453 reach=3 timeout=240
 void h_getInnerState_f(void)
 {
   struct StatesClassification *p; Bitset s;
@@ -168,7 +168,7 @@ __CPROVER_assigns(VERIF_thrown, self->StateBlockIndex.scratch, self->StatesConta
 __CPROVER_ensures(VERIF_thrown == (self->Status < Computed || state >= self->StateSize))
 __CPROVER_ensures(!VERIF_thrown ==> __CPROVER_return_value == SCN->gvec.gpos)
 //@end
-//@harness h_getInnerState_q enforce=SC_getInnerState_q replace=SC_getInnerState_f props=C07,C17 min_obl=365 reach=3 timeout=120
+//@harness h_getInnerState_q enforce=SC_getInnerState_q replace=SC_getInnerState_f props=C07,C17 min_obl=361 reach=3 timeout=120
 void h_getInnerState_q(void)
 {
   struct StatesClassification *p; unsigned long s;
@@ -188,7 +188,7 @@ __CPROVER_ensures((self->Status >= Computed && in.number >= 0 && (unsigned long)
                   (VERIF_thrown == (m >= SCN->gvec.size) &&
                    ((!VERIF_thrown && m == SCN->gvec.gpos) ==> (__CPROVER_return_value.w == SCN->gvec.gstate.w && __CPROVER_return_value.size == SCN->gvec.gstate.size))))
 //@end
-//@harness h_getFockState enforce=SC_getFockState props=C07,C17 min_obl=240 reach=3 timeout=120
+//@harness h_getFockState enforce=SC_getFockState props=C07,C17 min_obl=263 reach=3 timeout=120
 void h_getFockState(void)
 {
   struct StatesClassification *p; BlockNumber b; unsigned long m;
@@ -207,7 +207,7 @@ __CPROVER_assigns(VERIF_thrown, self->StatesContainer.scratch, self->StatesConta
 __CPROVER_ensures(VERIF_thrown == (self->Status < Computed))
 __CPROVER_ensures((!VERIF_thrown && (unsigned long)in.number == SCN->gblock) ==> __CPROVER_return_value == &SCN->gvec)
 //@end
-//@harness h_getFockStates enforce=SC_getFockStates props=C07,C17 min_obl=132 reach=3 timeout=120
+//@harness h_getFockStates enforce=SC_getFockStates props=C07,C17 min_obl=139 reach=3 timeout=120
 void h_getFockStates(void)
 {
   struct StatesClassification *p; BlockNumber b;
@@ -219,7 +219,7 @@ void h_getFockStates(void)
 /* ROUND TRIP (C07: "every Fock state ... is recovered from its (block, position) address"): for an arbitrary state s of a
  * classification that satisfies the representation invariant at s:  getFockState(getBlockNumber(s), getInnerState(s)) == s.
  * The three extracted functions run in sequence (no contract replaced). */
-//@harness h_roundtrip enforce=none props=C07 min_obl=405 reach=1 timeout=300
+//@harness h_roundtrip enforce=none props=C07 min_obl=429 reach=1 timeout=300
 void h_roundtrip(void)
 {
   struct StatesClassification sc; struct StatesClassification *self = &sc; Bitset s;
@@ -322,7 +322,7 @@ __CPROVER_loop_invariant(found ==> (result.size > 0 && g_found_pos < SCN->gvec.s
                                     (g_found_pos == SCN->gvec.gpos ==> (g_img_g && result.first.w == g_first_g))))
 __CPROVER_decreases(SCN->gvec.size - state_it.pos + (found ? 0UL : 1UL))
 //@end
-//@harness h_mapsTo enforce=FieldOperator_mapsTo props=C07 min_obl=630 reach=4 timeout=400
+//@harness h_mapsTo enforce=FieldOperator_mapsTo props=C07 min_obl=625 reach=4 timeout=400
 void h_mapsTo(void)
 {
   struct FieldOperator *f; BlockNumber b;
@@ -443,7 +443,7 @@ __CPROVER_assigns(n, QNumbers)
 __CPROVER_loop_invariant(0 <= n && n <= NOperations)
 __CPROVER_decreases(NOperations - n)
 //@end
-//@harness h_SC_compute enforce=SC_compute props=C07,C17 min_obl=780 reach=4 timeout=180
+//@harness h_SC_compute enforce=SC_compute props=C07,C17 min_obl=763 reach=4 timeout=180
 void h_SC_compute(void)
 {
   struct StatesClassification *p;
